@@ -97,6 +97,7 @@ static void c15_run(void) {
 	D.handler_merges_left = g_chance(1, 3) ? g_range(1, 3) : 0;
 	D.late_activate = g_chance(1, 4);   // the mergers start before the source is activated: nothing may be delivered early, nothing lost
 	int idx = 0;
+	int small_domain = D.type == 2 && g_chance(1, 3);
 	for (int t = 0; t < D.nth; t++) {
 		D.nops[t] = g_range(2, 7);
 		for (int i = 0; i < D.nops[t]; i++) {
@@ -105,7 +106,8 @@ static void c15_run(void) {
 			op->kind = r < 66 ? M_MERGE : r < 80 ? M_SUSPEND_RESUME : r < 88 ? M_REPLACE_HANDLER : M_PAUSE;
 			op->val = op->kind == M_PAUSE ? (uint64_t)g_range(1, 200) * USEC : D.type == 1 ? (1ull << g_n(20)) : 1 + g_n(1000);
 			// the data is an unsigned long: a quarter of the values use its upper half (sums stay far below 2^64)
-			if (op->kind == M_MERGE && g_chance(1, 16)) op->val = 0;   // documented: no effect for ADD / OR; REPLACE stores it and the handler is not called for it
+			if (small_domain && op->kind != M_PAUSE) op->val = 1 + g_n(3);   // the same few values over and over (a value may come back while another one is still pending)
+			else if (op->kind == M_MERGE && g_chance(1, 16)) op->val = 0;   // documented: no effect for ADD / OR; REPLACE stores it and the handler is not called for it
 			else if (op->kind != M_PAUSE && g_chance(1, 4)) op->val = D.type == 1 ? (1ull << (20 + g_n(43))) : D.type == 0 ? ((uint64_t)(1 + g_n(1000)) << (20 + g_n(30))) : ((uint64_t)(1 + g_n(1000)) << (20 + g_n(40))) | g_n(1000);
 			op->burst = g_range(1, 4);
 			if (op->kind == M_SUSPEND_RESUME && g_chance(1, 3)) op->burst = 0;   // a bare suspend/resume pair: may land inside one invocation of the source
